@@ -11,6 +11,7 @@
 package c13
 
 import (
+	"database/sql"
 	"fmt"
 	"strings"
 
@@ -39,7 +40,55 @@ func initEnv(c *core.Ctx) {
 	txm.H.Enabled = true
 	txm.H.Audit = true
 	txm.H.SetCols = true
+	txm.H.AfterProbe = true
+	for _, r := range mustRows(H.SQL.Query("SELECT sql FROM sqlite_master WHERE sql IS NOT NULL AND name NOT LIKE 'sqlite_%' ORDER BY rowid")) {
+		ddl = append(ddl, r)
+	}
 	txm.H.MarkFn = func() int { return H.Rec.Mark() }
+}
+
+var ddl []string
+
+func mustRows(rows *sql.Rows, err error) (out []string) {
+	if err != nil {
+		panic(err)
+	}
+	defer rows.Close()
+	for rows.Next() {
+		var s string
+		if err := rows.Scan(&s); err != nil {
+			panic(err)
+		}
+		out = append(out, s)
+	}
+	return
+}
+
+// coldShape runs the operation as the FIRST use of its models on a fresh handle (tables created by raw
+// DDL, so nothing has parsed a schema yet) and returns the hook sequence: which hooks a model has must
+// not depend on whether the first statement saw it as struct, pointer slice or value slice.
+func coldShape(run func(db *gorm.DB) *gorm.DB) (shape string, err error) {
+	h, e := vdb.Open(vdb.Options{})
+	if e != nil {
+		panic(e)
+	}
+	defer h.Close()
+	for _, q := range ddl {
+		if _, e := h.SQL.Exec(q); e != nil {
+			panic(e)
+		}
+	}
+	if _, e := h.SQL.Exec(txm.SeedSQL); e != nil {
+		panic(e)
+	}
+	txm.ResetHooks()
+	mf := txm.H.MarkFn
+	txm.H.MarkFn = nil
+	res := run(h.DB.Session(&gorm.Session{}))
+	txm.H.MarkFn = mf
+	shape = txm.LogShape(txm.H.Log)
+	txm.H.Log = nil
+	return shape, res.Error
 }
 
 func restore() {
@@ -383,6 +432,9 @@ func runRead(c *core.Ctx, kind string) {
 	if r.err != nil {
 		problems = append(problems, "error: "+r.err.Error())
 	}
+	if cs, cerr := coldShape(run); cerr != nil || cs != txm.LogShape(r.log) {
+		problems = append(problems, fmt.Sprintf("as the first statement of a fresh handle the read fired [%s] (error %v), on a handle that had used the models before [%s]", cs, cerr, txm.LogShape(r.log)))
+	}
 	seen := map[string]int{}
 	nu, no := 0, 0
 	for _, e := range r.log {
@@ -447,6 +499,11 @@ func run(c *core.Ctx) {
 	if len(ff.log) > 0 {
 		c.Shape("op", kind, txm.LogShape(ff.log), len(op.Records()))
 	}
+	// the same operation as first use of a fresh handle
+	if cs, cerr := coldShape(txm.GenOp(kind, seed).Run); cerr != nil || cs != txm.LogShape(ff.log) {
+		c.Violation("cold-first-use/"+kind, map[string]interface{}{"op": op.Desc, "problems": []string{fmt.Sprintf("as the first statement of a fresh handle the operation fired [%s] (error %v), on a handle that had used the models before [%s]", cs, cerr, txm.LogShape(ff.log))}})
+	}
+	c.Inc("cold_first_use_runs")
 	// SkipHooks session
 	rs := execute(op.Run, 0, true)
 	c.Inc("skiphooks_runs")
@@ -476,7 +533,7 @@ func run(c *core.Ctx) {
 var Engine = &core.Engine{
 	ID:    "C13",
 	Level: "fault_enumeration",
-	Rule: "the 16 write operation kinds of C05 over seeded record graphs (struct, value slice, pointer slice, batches; children with their own hooks) plus 7 read kinds (Find, First, Take, Preload, condition, map destination, FindInBatches); each operation is run fault-free (sequence, exactly-once, statement position, slice order, transaction identity of hook writes, stored before-hook values), in a SkipHooks session, and once per hook invocation index with that invocation failing; " +
+	Rule: "every operation also runs as the first statement of a fresh handle (cold schema cache, raw DDL) and must fire the same hooks; after-hooks address the current record through the statement (SetColumn / Changed); the 16 write operation kinds of C05 over seeded record graphs (struct, value slice, pointer slice, batches; children with their own hooks) plus 7 read kinds (Find, First, Take, Preload, condition, map destination, FindInBatches); each operation is run fault-free (sequence, exactly-once, statement position, slice order, transaction identity of hook writes, stored before-hook values), in a SkipHooks session, and once per hook invocation index with that invocation failing; " +
 		"distinct = (kind, hooks fired, records) resp. (kind, failing hook, type, first/last); non-trivial = at least one hook fired",
 	Assumptions: []string{
 		"records are identified by the address of the in-memory struct the hook receives",
